@@ -289,6 +289,11 @@ func (i *IGMP) DecodeFromBytes(data []byte, df gopacket.DecodeFeedback) error {
 		return errors.New("IGMP packet is too small")
 	}
 
+	// forget what an earlier packet left in a reused layer: the message
+	// decoders below append to the address and record lists and assign only
+	// the fields of their own message type.  Version is set by the caller.
+	*i = IGMP{Version: i.Version}
+
 	// common IGMP header values between versions 1..3 of IGMP specification..
 	i.Type = IGMPType(data[0])
 
